@@ -195,11 +195,12 @@ def partitionEqual (lo hi pivotIdx : Nat) : M a0 Nat := do
     l := l + 1
   return l + 1
 
-def nextPow2 (n : Nat) : Nat := Id.run do
-  let mut p := 1
-  for _ in [0:70] do
-    if p < n then p := p * 2 else break
-  return p
+/-- `usize::next_power_of_two` by doubling (70 doublings cover every `usize`) -/
+def nextPow2Go (n : Nat) : (fuel : Nat) → (p : Nat) → Nat
+  | 0, p => p
+  | fuel + 1, p => if p < n then nextPow2Go n fuel (p * 2) else p
+
+def nextPow2 (n : Nat) : Nat := nextPow2Go n 70 1
 
 def breakPatterns (lo hi : Nat) : M a0 Unit := do
   let len := hi - lo
@@ -220,39 +221,46 @@ def breakPatterns (lo hi : Nat) : M a0 Unit := do
       if other ≥ len then other := other - len
       swp (lo + pos - 1 + i) (lo + other)
 
+/-- `sort2` of `choose_pivot`: orders two indices by their elements, counting the swap -/
+def cpSort2 (v : Nat → α) (x y sw : Nat) : Nat × Nat × Nat :=
+  if lt (v y) (v x) then (y, x, sw + 1) else (x, y, sw)
+
+/-- `sort3` of `choose_pivot` -/
+def cpSort3 (v : Nat → α) (x y z sw : Nat) : Nat × Nat × Nat × Nat :=
+  let r1 := cpSort2 lt v x y sw
+  let r2 := cpSort2 lt v r1.2.1 z r1.2.2
+  let r3 := cpSort2 lt v r1.1 r2.1 r2.2.2
+  (r3.1, r3.2.1, r2.2.1, r3.2.2)
+
+/-- the index computation of `choose_pivot` on the elements `v 0 .. v (len-1)`: (candidate index, swaps) -/
+def choosePivotIdx (v : Nat → α) (len : Nat) : Nat × Nat :=
+  let ia := len / 4 * 1
+  let ib := len / 4 * 2
+  let ic := len / 4 * 3
+  if len ≥ 8 then
+    if len ≥ PS_SHORTEST_MEDIAN_OF_MEDIANS then
+      let r1 := cpSort3 lt v (ia - 1) ia (ia + 1) 0
+      let r2 := cpSort3 lt v (ib - 1) ib (ib + 1) r1.2.2.2
+      let r3 := cpSort3 lt v (ic - 1) ic (ic + 1) r2.2.2.2
+      let r := cpSort3 lt v r1.2.1 r2.2.1 r3.2.1 r3.2.2.2
+      (r.2.1, r.2.2.2)
+    else
+      let r := cpSort3 lt v ia ib ic 0
+      (r.2.1, r.2.2.2)
+  else (ib, 0)
+
 /-- (pivot index, likely_sorted) -/
 def choosePivot (lo hi : Nat) : M a0 (Nat × Bool) := do
   let len := hi - lo
   let a := (← get).val
-  let v := fun (i : Nat) => a[lo + i]!
-  let sort2 := fun (x y : Nat) (sw : Nat) => if lt (v y) (v x) then (y, x, sw + 1) else (x, y, sw)
-  let sort3 := fun (x y z : Nat) (sw : Nat) =>
-    let (x, y, sw) := sort2 x y sw
-    let (y, z, sw) := sort2 y z sw
-    let (x, y, sw) := sort2 x y sw
-    (x, y, z, sw)
-  let mut ia := len / 4 * 1
-  let mut ib := len / 4 * 2
-  let mut ic := len / 4 * 3
-  let mut swaps := 0
-  if len ≥ 8 then
-    if len ≥ PS_SHORTEST_MEDIAN_OF_MEDIANS then
-      let (_, m, _, sw) := sort3 (ia - 1) ia (ia + 1) swaps
-      ia := m; swaps := sw
-      let (_, m, _, sw) := sort3 (ib - 1) ib (ib + 1) swaps
-      ib := m; swaps := sw
-      let (_, m, _, sw) := sort3 (ic - 1) ic (ic + 1) swaps
-      ic := m; swaps := sw
-    let (x, y, z, sw) := sort3 ia ib ic swaps
-    ia := x; ib := y; ic := z; swaps := sw
-  let _ := (ia, ic)
-  if swaps < PS_MAX_SWAPS then
-    return (ib, swaps == 0)
+  let r := choosePivotIdx lt (fun (i : Nat) => a[lo + i]!) len
+  if r.2 < PS_MAX_SWAPS then
+    return (r.1, r.2 == 0)
   else
     -- v.reverse()
     for k in [0:len / 2] do
       swp (lo + k) (lo + len - 1 - k)
-    return (len - 1 - ib, true)
+    return (len - 1 - r.1, true)
 
 /-- the part of one `recurse` iteration after the pivot has been chosen: partition (or `partition_equal` against the
     predecessor pivot) and the recursive calls; `rec` is the loop itself with one unit of fuel less -/
